@@ -41,7 +41,7 @@ ORCH = 'chainables.orchestrate'
 
 
 def run(ctx: Ctx):
-  for r in (r1, r2, r3, r4, r5, r6, r7, r8, r9, r11, r12, r13, r14, r15, r16, r17, r18, r19):
+  for r in (r1, r2, r3, r4, r5, r6, r7, r8, r9, r11, r12, r13, r14, r15, r16, r17, r18, r19, r20, r21):
     ctx.guard(r)
   from mlmverif.props import c06
   ctx.include('R-C20-10', '"liveness is a function only of the last recorded heartbeat": the'
@@ -1500,12 +1500,69 @@ def r19(ctx: Ctx):
   ctx.floor(rule, 2, n)
 
 
+def r20(ctx: Ctx):
+  rule = 'R-C20-20'
+  ctx.rule(rule, '"at any time at most one pool owns a given worker": every ownership test the pool / orchestration code makes'
+           ' names the pool it asks for — `w.is_locked(<pool>)`, `w.is_available(<pool>)`, `w.acquire_by(<pool>)` always carry'
+           ' their pool argument. `w.is_locked()` without it answers "locked by ANYBODY": a pool is handed a worker another'
+           ' pool holds and uses it while the owner field still names the other pool')
+  n = 0
+  for fi in ctx.repo.all_functions():
+    if not fi.module.name.endswith(('courier_worker', 'orchestrate')) or (fi.cls is not None and fi.cls.name == 'Worker'):
+      continue
+    for c in ast.walk(fi.node):
+      if isinstance(c, ast.Call) and isinstance(c.func, ast.Attribute) and c.func.attr in ('is_locked', 'is_available', 'acquire_by'):
+        n += 1
+        what = f'{fi.qualname}: `{unparse(c)[:40]}` names the pool it asks for'
+        if c.args or kwarg(c, 'worker_pool') is not None:
+          ctx.ok(rule, fi, what, c)
+        else:
+          ctx.fail(rule, fi, what,
+                   f'`{unparse(c)}` asks whether ANY pool holds the worker: a worker held by another pool passes the test and is'
+                   ' used by this one — two pools work with one worker', node=c)
+  ctx.floor(rule, 6, n)
+
+
+def r21(ctx: Ctx):
+  rule = 'R-C20-21'
+  ctx.rule(rule, '"when a pool-level operation returns or raises, none of its workers remains acquired" — raises of every kind:'
+           ' in the methods of WorkerPool a release that is meant for the failure path stands in a `finally`, or in a'
+           ' handler that catches BaseException / everything. `except Exception: self.release_all(); raise` leaves the'
+           ' workers acquired when the operation is left by KeyboardInterrupt, SystemExit or a cancellation')
+  ci = ctx.repo.cls(CW, 'WorkerPool')
+  n = 0
+  for name, fi in ci.methods.items():
+    for t in ast.walk(fi.node):
+      if not isinstance(t, ast.Try):
+        continue
+      rel = lambda nodes: any(isinstance(c, ast.Call) and isinstance(c.func, ast.Attribute) and c.func.attr in ('release', 'release_all')
+                              for b in nodes for c in ast.walk(b))
+      narrow = [h for h in t.handlers if rel(h.body) and any(isinstance(r_, ast.Raise) for b in h.body for r_ in ast.walk(b))
+                and h.type is not None and 'BaseException' not in unparse(h.type)]
+      if not (rel(t.finalbody) or narrow or any(rel(h.body) for h in t.handlers)):
+        continue
+      n += 1
+      what = f'WorkerPool.{name}: the failure path releases for every kind of exception'
+      if narrow and not rel(t.finalbody):
+        ctx.fail(rule, fi, what,
+                 f'`except {unparse(narrow[0].type)}:` releases and re-raises, and there is no `finally` release: an interrupt or a'
+                 ' cancellation (BaseException) leaves every worker of the pool acquired', node=narrow[0])
+      else:
+        ctx.ok(rule, fi, what, t)
+  ctx.floor(rule, 2, n)
+
+
 from mlmverif.selfcheck import B, OK  # noqa: E402
 
 _U = 'utils/courier_utils.py'
 _W = 'chainables/courier_worker.py'
 _O = 'chainables/orchestrate.py'
 VARIANTS = [
+    B('ownership-test-without-its-pool', 'chainables/courier_worker.py',
+      "      if worker.is_locked(self):\n        if worker.has_capacity and worker.is_alive:\n          return worker", "      if worker.is_locked():\n        if worker.has_capacity and worker.is_alive:\n          return worker", 'R-C20-20'),
+    B('call-and-wait-releases-on-exception-only', 'chainables/courier_worker.py',
+      "    except Exception as e:  # pylint: disable=broad-exception-caught\n      raise e\n    finally:\n      self.release_all()\n    return result",
+      "    except Exception:  # pylint: disable=broad-exception-caught\n      self.release_all()\n      raise\n    self.release_all()\n    return result", 'R-C20-21'),
     B('revert-registration-overwrites-the-recorded-time', 'utils/courier_utils.py',
       "      self.data[address] = time_ if last_time is None else max(last_time, time_)", "      self.data[address] = time_", 'R-C20-19'),
     OK('registration-keeps-the-newer-time-with-an-if', 'utils/courier_utils.py',
